@@ -95,11 +95,19 @@ func mirrorCheck(prop string, props string, rule string) func(c *vx.Ctx) {
 				c.Sample(map[string]any{"deviations_or_events": j.Hist, "mode": j.Args["mode"], "seed_prefix": j.Args["seed"], "outcome": r.Outcome})
 			}
 		}
+		t0 := time.Now()
+		phases := map[string]float64{}
 		exploreDeviations(c, props, maxDev, st, each)
+		phases["deviations"] = time.Since(t0).Seconds()
+		t0 = time.Now()
 		exploreBFS(c, props, seeds, depth, alphabet("core"), st, each)
+		phases["bfs"] = time.Since(t0).Seconds()
+		t0 = time.Now()
 		if prop == "C01" || prop == "C05" || prop == "C09" || prop == "C11" || prop == "ALLA" {
 			exploreRaces(c, props)
 		}
+		phases["concurrent_callers"] = time.Since(t0).Seconds()
+		c.Extra["phase_seconds"] = phases
 		c.Assume("testing/synctest quiescence: between two harness events the mirror runs until every goroutine is blocked")
 		c.Assume("tmconsensustest.SimpleSignatureScheme sign bytes (checked by C15) and crypto/ed25519 are the ground truth for signature validity")
 		c.Assume("4 validators, one Byzantine (<1/3 power); honest validators precommit only the honest block or nil")
